@@ -37,7 +37,10 @@ OPEN_STATEMENTS = [
     'qubit positions, angle, control), and that a gate is exp(-i angle generator) is the C14 gate correspondence',
     'basis changes (bogoliubov_transform inside SPLIT_OPERATOR / LOW_RANK) are opaque markers in the Model; the operator identity '
     'U n_i U^-1 = orbital number operator is the C14 conjugation oracle, and the unitary of whole circuits is a 1e-8 float comparison',
-    'controlled_structure is about the Model lists; identity on control 0 / phase of the constant on real circuits: oracle',
+    'controlled_structure / controlled_phase are about the Model lists and leaf times (total phase exp(-i t constant)); identity on '
+    'control 0 and the phase on real circuits: oracle',
+    'suzuki_power_sums gives all power sums of the leaf times in closed form (hence the multiset) and suzuki_top_power_sum_vanishes '
+    'the order-raising cancellation over the reals; the analytic step from these to the error bound remains open',
 ]
 ASSUMPTIONS = [
     'cirq.Circuit.unitary, scipy.linalg.expm, numpy are trusted numerical kernels (abs tol 1e-8 on <= 5 qubits)',
